@@ -44,7 +44,16 @@ def install_hook():
 
 def segments(outside_abs: str):
     return ['', '.', '..', 'k', 'a', 'new', ' ', '~', 'link_out', 'link_in', 'dangling', 'dangling_in',
-            'file_link', outside_abs, 'nul\0x', 'f', '.gitignore', 'K', 'link_prefix', 'link_prefix_dir']
+            'file_link', outside_abs, 'nul\0x', 'f', '.gitignore', 'K', 'link_prefix', 'link_prefix_dir',
+            # compatibility characters that Unicode normalisation (NFKC) turns into '..' / '.'
+            '\uff0e\uff0e', '\u2025']
+
+
+def extra_strings():
+    """Whole strings outside the segment product: separators and dots spelled with compatibility characters."""
+    FS, FD = '\uff0f', '\uff0e'
+    return [f'k{FS}{FD}{FD}{FS}{FD}{FD}{FS}outside', f'{FD}{FD}{FS}outside', f'link_out{FS}secret', f'k{FS}f', f'{FD}', f'k\u2215{FD}{FD}',
+            f'{FD}{FD}{FS}{FD}{FD}{FS}canary_top', 'k\u2024\u2024', '\u2024\u2024']
 
 
 def strings(nseg: int, outside_abs: str):
@@ -60,6 +69,10 @@ def strings(nseg: int, outside_abs: str):
                 if s not in seen:
                     seen.add(s)
                     out.append(s)
+    for s in extra_strings():
+        if s not in seen:
+            seen.add(s)
+            out.append(s)
     return out
 
 
@@ -233,6 +246,86 @@ def _work(item):
         shutil.rmtree(top, ignore_errors=True)
 
 
+def audit_paths(audit, st_real: str) -> set:
+    """Every absolute path inside the storage directory that an operation named in an audited call."""
+    out = set()
+    for event, args in audit:
+        for a in args:
+            if isinstance(a, bytes):
+                a = os.fsdecode(a)
+            elif hasattr(a, '__fspath__'):
+                a = os.fspath(a)
+            if isinstance(a, str) and os.path.isabs(a) and '\0' not in a:
+                a = os.path.normpath(a)
+                if a.startswith(st_real + os.sep):
+                    out.add(a)
+    return out
+
+
+PLANTS = ('symlink->outside-dir', 'symlink->outside-file', 'dangling-symlink->outside')
+
+
+def reactive_ops():
+    ops = [('exists', k) for k in ('k', 'new')] + [('delete', k) for k in ('k', 'new')]
+    for k in ('k', 'new'):
+        for fn in ('f', 'metadata.json'):
+            for m in MODES + ('wt', 'at'):
+                ops.append(('file_handle', k, fn, m))
+    return ops
+
+
+def _work_reactive(batch):
+    """For every path an operation probes that does not exist yet (a temporary file next to the
+    target, a move-aside name, a lock file ...), the operation is repeated on fresh sandboxes in
+    which that very path already exists as a symlink pointing outside the storage directory."""
+    silence_labtech()
+    from labtech.storage import LocalStorage
+    install_hook()
+    base = '/dev/shm' if os.path.isdir('/dev/shm') and os.access('/dev/shm', os.W_OK) else None
+    top = tempfile.mkdtemp(prefix='c18r_', dir=base)
+    res = []
+    n = planted = 0
+    try:
+        for i, op in enumerate(batch):
+            root = os.path.join(top, f'p{i}')
+            st = build_sandbox(Path(root), 'keys')
+            st_real = os.path.realpath(st)
+            storage = LocalStorage(os.path.join(root, 'storage'), with_gitignore=False)
+            before = snapshot(Path(root))
+            raised, audit = run_case(storage, st_real, root, op)
+            n += 1
+            expected = {os.path.join(st_real, op[1])} | ({os.path.join(st_real, op[1], op[2])} if op[0] == 'file_handle' else set())
+            cands = sorted(p for p in audit_paths(audit, st_real) if p not in before and p not in expected)
+            shutil.rmtree(root, ignore_errors=True)
+            for j, cand in enumerate(cands):
+                rel = os.path.relpath(cand, st_real)
+                for plant in PLANTS:
+                    root2 = os.path.join(top, f'p{i}_{j}_{PLANTS.index(plant)}')
+                    st2 = build_sandbox(Path(root2), 'keys')
+                    st2_real = os.path.realpath(st2)
+                    target = {'symlink->outside-dir': os.path.join(root2, 'outside', 'sub'),
+                              'symlink->outside-file': os.path.join(root2, 'outside', 'secret'),
+                              'dangling-symlink->outside': os.path.join(root2, 'outside', 'created_through_link')}[plant]
+                    lp = os.path.join(st2_real, rel)
+                    os.makedirs(os.path.dirname(lp), exist_ok=True)
+                    os.symlink(target, lp)
+                    storage2 = LocalStorage(os.path.join(root2, 'storage'), with_gitignore=False)
+                    before2 = snapshot(Path(root2))
+                    raised2, audit2 = run_case(storage2, st2_real, root2, op)
+                    after2 = snapshot(Path(root2))
+                    planted += 1
+                    for k, msg in judge(op, raised2, before2, after2, audit2, st2_real, root2):
+                        if k in ('several-keys-touched', 'touched-storage-level-file') and os.sep not in rel:
+                            continue       # the planted name itself is a child of the storage directory
+                        res.append((f'{k}:{op[0]}:planted-symlink',
+                                    f'{op!r} with {rel!r} (a path the operation itself probes) pre-existing as {plant} '
+                                    f'({"raised " + type(raised2).__name__ if raised2 else "returned"}): {msg}', 80 + i))
+                    shutil.rmtree(root2, ignore_errors=True)
+        return n, planted, res
+    finally:
+        shutil.rmtree(top, ignore_errors=True)
+
+
 OUT_TOKEN = '<<OUTSIDE_ABS>>'
 
 MUTATIONS = ('key->symlink-outside-dir', 'key->symlink-sibling-key', 'file->symlink-outside-file', 'key->symlink-prefix-sibling',
@@ -373,7 +466,16 @@ def run(tier: str, seed: int) -> Result:
         for key, msg, size in res:
             viols.append(Violation('C18', key, msg, {'tier': tier, 'clause': key, 'msg': msg}, size=size))
     total += n_hist
+    rops = reactive_ops()
+    n_react = n_planted = 0
+    for n, pl, res in pmap(_work_reactive, [rops[i:i + 6] for i in range(0, len(rops), 6)]):
+        n_react += n
+        n_planted += pl
+        for key, msg, size in res:
+            viols.append(Violation('C18', key, msg, {'tier': tier, 'clause': key, 'msg': msg}, size=size))
+    total += n_react + n_planted
     cov = {
+        'reactive_cases': {'operations': n_react, 'runs_with_a_probed_path_planted_as_symlink': n_planted},
         'two_step_histories_with_environment_change': n_hist,
         'evaluations': total,
         'distinct_nontrivial': len(ops) * len(LAYOUTS) + len(hist),
@@ -381,7 +483,7 @@ def run(tier: str, seed: int) -> Result:
                  'space, tilde, symlinks pointing outside / to a sibling key / dangling, symlink inside a key dir to an outside file, absolute outside path, '
                  'NUL, .gitignore, case variant) joined by / or \\; ops exists, delete, file_handle in 8 modes (then read/write+close); 4 layouts; '
                  'keys x 3 benign filenames and 3 benign keys x filenames; each case on a fresh (or verified-unchanged) sandbox; plus two-step histories '
-                 '(operation; a key or file is replaced by a symlink to outside / sibling / prefix-sibling; second operation on the same storage object); '
+                 '(operation; a key or file is replaced by a symlink to outside / sibling / prefix-sibling; second operation on the same storage object); reactive layouts: every not-yet-existing path an operation names in an audited call is planted as a symlink to an outside directory / file / dangling outside target and the operation repeated; '
                  'distinct_nontrivial = distinct (layout, operation) cases'),
         'samples': [repr(ops[i]) for i in (0, len(ops) // 3, len(ops) // 2, len(ops) - 1)],
         'operations_that_did_not_raise': accepted,
